@@ -7,9 +7,16 @@ def parseChunks (s : String) : Option (List Bytes) :=
   (splitList s).mapM fun x => if x == "_" then some [] else
     if x == "-" then none else fromHex x
 
+/-- the stack a path gets: key `-` = no rule matched / `eol` unset -/
+def stackOf (win : Bool) (key : String) : Option (List Filter) :=
+  prefStack win (if key == "-" then none else some key)
+
 /-- `lf c` | `crlf c` | `glf c` (converters on one content) |
 `out win key chunks` | `in win key content` | `rt win key content`
-(read back what was written); unknown key ↦ `E:BzrError` -/
+(read back what was written) | `stat win key disk` (`stat_and_sha1`: the
+reported `st_size` and the text that is hashed) | `chg win key content`
+(does a fresh checkout of `content` report a change; the hash is the identity);
+key `-` = no `eol` preference for the path; unknown key ↦ `E:BzrError` -/
 def handle : List String → String
   | ["lf", c] => match fromHex c with
     | some c => toHex (toLf c)
@@ -23,22 +30,36 @@ def handle : List String → String
   | ["out", win, key, chunks] =>
     match parseBool win, parseChunks chunks with
     | some win, some chunks =>
-      match eolLookup win key with
+      match stackOf win key with
       | some st => toHex (outputBytes chunks st).flatten
       | none => "E:BzrError"
     | _, _ => "bad-op"
   | ["in", win, key, c] =>
     match parseBool win, fromHex c with
     | some win, some c =>
-      match eolLookup win key with
+      match stackOf win key with
       | some st => toHex (inputFile c st)
       | none => "E:BzrError"
     | _, _ => "bad-op"
   | ["rt", win, key, c] =>
     match parseBool win, fromHex c with
     | some win, some c =>
-      match eolLookup win key with
+      match stackOf win key with
       | some st => toHex (readIn st (writeOut st c))
+      | none => "E:BzrError"
+    | _, _ => "bad-op"
+  | ["stat", win, key, d] =>
+    match parseBool win, fromHex d with
+    | some win, some d =>
+      match stackOf win key with
+      | some st => toString (statSize st d) ++ " " ++ toHex (hashedText st d)
+      | none => "E:BzrError"
+    | _, _ => "bad-op"
+  | ["chg", win, key, c] =>
+    match parseBool win, fromHex c with
+    | some win, some c =>
+      match stackOf win key with
+      | some st => showBool (reportsChange id st c (writeOut st c))
       | none => "E:BzrError"
     | _, _ => "bad-op"
   | _ => "bad-op"
